@@ -5,7 +5,7 @@
 # Works in a scratch worktree under /tmp (removed afterwards); never touches /repo's working tree.
 set -u
 P=$1; N=$2
-SRC=/tmp/mut-$P-out/$N
+SRC=/root/mut/out-$P/$N; [ -d $SRC ] || SRC=/tmp/mut-$P-out/$N
 DST=/verif/seeded/$P-$N
 W=/tmp/seedconf-$P-$N
 export CARGO_NET_OFFLINE=true
